@@ -60,6 +60,25 @@ type Ev struct {
 	Probes  *[]Probe  `json:"probes,omitempty"`
 	Msg     string    `json:"msg,omitempty"`
 	Engine  *bool     `json:"engine,omitempty"`
+	Plan    *[][]int  `json:"plan,omitempty"`
+}
+
+// plan logs how tuning.Batches / tuning.Chunks cut n lines (pure functions of n; no file needed):
+// one row per batch: s, e, then the chunk boundaries c0=s, c1, ..., ck=e as yielded
+func (r *rec) plan(n int) {
+	r.t++
+	rows := [][]int{}
+	for b := range tuning.Batches(n) {
+		row := []int{b.Start, b.End}
+		for c := range tuning.Chunks(b) {
+			row = append(row, c.Start, c.End)
+		}
+		rows = append(rows, row)
+		if len(rows) > 200 {
+			break
+		}
+	}
+	r.emit(&Ev{Ev: "plan", N: n, Plan: &rows})
 }
 
 type rec struct {
@@ -153,6 +172,49 @@ func (r *rec) fileTest(lines [][]byte, epochs []int, digest bool, subs int) {
 		}
 		return &reads
 	}
+	readInterleaved := func(epoch int, rs []tuning.Range) []*[][]any {
+		cs := make([]*epd.Chunk, len(rs))
+		out := make([]*[][]any, len(rs))
+		for i, rg := range rs {
+			c, err := ch.Open(epoch, rg.Start, rg.End)
+			if err != nil {
+				panic(fmt.Sprintf("Open(%d,%d,%d) n=%d: %v", epoch, rg.Start, rg.End, n, err))
+			}
+			cs[i] = c
+			out[i] = &[][]any{}
+		}
+		live := len(cs)
+		for live > 0 {
+			for i, c := range cs {
+				if c == nil {
+					continue
+				}
+				// a random small burst from this chunk, then the next one
+				for k := 1 + r.rng.Intn(3); k > 0; k-- {
+					line, err := c.Read()
+					if err != nil {
+						if err != io.EOF {
+							panic(err)
+						}
+						c.Close()
+						cs[i] = nil
+						live--
+						break
+					}
+					ix, ok := index[string(line)]
+					if !ok {
+						ix = -1
+					}
+					if digest {
+						*out[i] = append(*out[i], []any{ix, dig(line)})
+					} else {
+						*out[i] = append(*out[i], []any{ix, string(line)})
+					}
+				}
+			}
+		}
+		return out
+	}
 	for _, ep := range epochs {
 		if n <= 20000 {
 			p := make([]int, n)
@@ -173,6 +235,25 @@ func (r *rec) fileTest(lines [][]byte, epochs []int, digest bool, subs int) {
 			}
 		}
 		r.emit(&Ev{Ev: "eoe"})
+		if ep == epochs[0] {
+			// the same epoch as the tuner's concurrent workers read it: several chunks of one Chunker
+			// open at the same time, their Reads alternating line by line
+			r.emit(&Ev{Ev: "epoch", Epoch: strconv.Itoa(ep)})
+			for batch := range tuning.Batches(n) {
+				r.emit(&Ev{Ev: "batch", S: batch.Start, E: batch.End})
+				var rs []tuning.Range
+				for chunk := range tuning.Chunks(batch) {
+					rs = append(rs, chunk)
+				}
+				for g := 0; g < len(rs); g += 4 {
+					grp := rs[g:min(g+4, len(rs))]
+					for i, reads := range readInterleaved(ep, grp) {
+						r.emit(&Ev{Ev: "chunk", S: grp[i].Start, E: grp[i].End, Reads: reads})
+					}
+				}
+			}
+			r.emit(&Ev{Ev: "eoe"})
+		}
 		for i := 0; i < subs && n > 0; i++ {
 			s := r.rng.Intn(n)
 			e := s + r.rng.Intn(n-s+1)
@@ -235,6 +316,25 @@ func (r *rec) epochMode(tier string) {
 	}
 	for _, n := range sizes {
 		r.fileTest(r.mkLines(n, 997, 1, 24), []int{r.rng.Intn(16)}, false, 2)
+	}
+	// how Batches / Chunks cut n lines, for many more n than files can be written for
+	for n := 1; n <= 300; n++ {
+		r.plan(n)
+	}
+	for k := 0; k <= 4; k++ {
+		for _, d := range []int{0, 1, 2, 3, 7, 15, 16, 17, 31, 6249, 6250, 6251, 12500, 50000, 93749, 93750, 93751, 99984, 99985, 99999} {
+			if k*100000+d > 0 {
+				r.plan(k*100000 + d)
+			}
+		}
+	}
+	np := 300
+	if tier == "thorough" {
+		np = 5000
+	}
+	for i := 0; i < np; i++ {
+		r.plan(1 + r.rng.Intn(2_000_000))
+		r.plan(100000*(1+r.rng.Intn(12)) + r.rng.Intn(40))
 	}
 	// big lines so that the 32 MiB read buffer has to be refilled (digest mode: length + fnv instead of text)
 	r.fileTest(r.mkLines(9500, 50, 1, 3900), []int{3}, true, 2)
@@ -351,7 +451,16 @@ func (r *rec) vecMode(tier string) {
 		}
 	}
 	subsets = append(subsets, append([]string{}, tuning.DefaultTargets...), names)
-	for _, targets := range subsets {
+	// second pass: the caller builds every choice in one reused buffer (in-place edits of the slice
+	// that was passed before): the mapping is a function of the slice's CONTENT at the time of the call
+	var buf []string
+	for pass := 0; pass < 2; pass++ {
+	for _, fresh := range subsets {
+		targets := fresh
+		if pass == 1 {
+			buf = append(buf[:0], fresh...)
+			targets = buf
+		}
 		r.t++
 		e := tuning.EngineCoeffs()
 		vec := e.ToVector(targets)
@@ -416,6 +525,7 @@ func (r *rec) vecMode(tier string) {
 		}
 		tg := append([]string{}, targets...)
 		r.emit(&Ev{Ev: "vec", Layout: &layout, Targets: &tg, Len: n, NTuned: ntuned, Probes: &probes})
+	}
 	}
 }
 
